@@ -85,11 +85,16 @@ func zzStored(s *kube.Store) []zzRev {
 }
 
 func zzSetup(nMax int) (*kube.Store, *v1.Composition, []zzRev) {
+	return zzSetupContents(nMax, zz.Bound(3, 4))
+}
+
+// zzSetupContents is zzSetup with the number of distinct composition contents given.
+func zzSetupContents(nMax, contents int) (*kube.Store, *v1.Composition, []zzRev) {
 	s := kube.New()
 	s.Register(&v1.Composition{}, &v1.CompositionList{}, zzGroup, "Composition")
 	s.Register(&v1.CompositionRevision{}, &v1.CompositionRevisionList{}, zzGroup, "CompositionRevision")
 
-	cur := zz.Choose("content", zz.Bound(3, 4))
+	cur := zz.Choose("content", contents)
 	comp := zzComposition(cur)
 	s.Put(comp)
 
@@ -98,7 +103,7 @@ func zzSetup(nMax int) (*kube.Store, *v1.Composition, []zzRev) {
 	used := map[int]bool{}
 	for i := 0; i < n; i++ {
 		nm := "rev" + string(rune('0'+i))
-		k := zz.Choose(nm+".content", zz.Bound(3, 4))
+		k := zz.Choose(nm+".content", contents)
 		// history invariant: each distinct content was captured exactly once
 		zz.Assume(!used[k])
 		used[k] = true
@@ -211,7 +216,7 @@ func HarnessC12Reconcile() {
 //gosym:harness
 //gosym:cover fault-hit
 func HarnessC12Faults() {
-	s, comp, pre := zzSetup(zz.Bound(2, 3))
+	s, comp, pre := zzSetupContents(zz.Bound(2, 3), 3)
 	s.FaultAt = zz.Choose("fault.at", 8)
 	s.FaultKind = 1 + zz.Choose("fault.kind", 3)
 	r := NewReconciler(&zzManager{c: s})
